@@ -78,9 +78,17 @@ func Cases(total int, f func(idx int)) {
 	}
 	i, n := Shard()
 	for idx := i; idx < total; idx += n {
+		lastCaseStart.Store(time.Now().UnixNano())
+		lastCaseIdx.Store(int64(idx))
 		f(idx)
 	}
 }
+
+// progress of the case loop, for the stall monitor (a harness need not call Mark)
+var (
+	lastCaseStart atomic.Int64
+	lastCaseIdx   atomic.Int64
+)
 
 func h64(s string) uint64 {
 	h := fnv.New64a()
@@ -140,7 +148,11 @@ func (r *Rec) stallDump() {
 		if r.closed.Load() {
 			return
 		}
-		if time.Since(time.Unix(0, r.lastMark.Load())) > limit {
+		last := r.lastMark.Load()
+		if c := lastCaseStart.Load(); c > last {
+			last = c
+		}
+		if time.Since(time.Unix(0, last)) > limit {
 			buf := make([]byte, 64<<20)
 			n := runtime.Stack(buf, true)
 			if r.curFile != "" {
@@ -148,12 +160,15 @@ func (r *Rec) stallDump() {
 				r.mu.Lock()
 				cur := r.cur
 				r.mu.Unlock()
+				if cur == "" || lastCaseStart.Load() > r.lastMark.Load() {
+					cur = fmt.Sprintf("case %d (no Mark since it started) %s", lastCaseIdx.Load(), cur)
+				}
 				os.WriteFile(r.curFile, []byte(cur), 0o644) // the case that did not finish (Mark writes it only when heavy)
 			}
 			if os.Getenv("VERIF_STALL_EXIT") != "" {
-				// units whose cases take microseconds (parsers): give up on the shard now instead of
-				// waiting for the driver's watchdog; the driver treats exit code 98 like its own
-				// watchdog firing (first strike of the two-strike hang rule).
+				// give up on the shard now instead of waiting for the driver's watchdog; the driver
+				// treats exit code 98 like its own watchdog firing (first strike of the two-strike
+				// hang rule) and re-runs the stalled case alone.
 				fmt.Fprintf(os.Stderr, "vlib: no case finished for %v, stall dump written, exiting 98\n", limit)
 				os.Exit(98)
 			}
